@@ -364,7 +364,7 @@ def run_relay(case, after=None):
             # abstract application effect of a client segment on a plain-HTTP exchange
             app = 'a/None/None/0'
             pre = {'mf': bool(h.must_flush_before_shutdown), 'rt': bool(h.reads_teared),
-                   'cbuf': len(h.work.buffer)}
+                   'cbuf': len(h.work.buffer), 'ev': w.interest(h, cs, us), 'bits': bits, 'fl': fl}
             r = w.tick(h, R, W)
             clog = cs.log[nc:]
             ulog = us.log[nu:] if us is not None else []
@@ -467,7 +467,26 @@ def oracle(case):
     recv_c = b''
     sent_c = b''
     sent_u = b''
-    for st in r['steps']:
+    terminal = False     # something happened after which the proxy may stop relaying
+    for i, st in enumerate(r['steps']):
+        if st.get('reap'):
+            continue
+        # the relay keeps going: while neither peer has closed / failed (and the client sent nothing
+        # that ends a plain-HTTP exchange), upstream read interest stays registered, a readable
+        # upstream is read in that very tick, and handle_events does not ask for teardown
+        c_send_fail = any(e[0] == 'send' and e[2] in ('brokenPipe', 'oserror', 'wantWrite') for e in st['clog'])
+        u_send_fail = any(e[0] == 'send' and e[2] in ('brokenPipe', 'oserror') for e in st['ulog'])
+        c_recv_end = any(e[0] == 'recv' and e[1] in ('eof', 'reset', 'timedout', 'oserror', 'blocking') for e in st['clog'])
+        c_data_http = case['setup'] == 'http' and any(e[0] == 'recv' and e[1] == 'data' for e in st['clog'])
+        u_recv_end = any(e[0] == 'recv' and e[1] in ('eof', 'reset', 'timedout', 'oserror', 'blocking') for e in st['ulog'])
+        before_read = terminal or c_send_fail or u_send_fail or c_recv_end or c_data_http
+        if not terminal and not st['pre']['ev'][2]:
+            return 'upstream read interest dropped while the exchange is open'
+        if not before_read and st['pre']['bits'][2] and not any(e[0] == 'recv' for e in st['ulog']):
+            return 'readable upstream not read while the exchange is open'
+        terminal = before_read or u_recv_end
+        if not terminal and st['ret'] != 'c':
+            return 'teardown while both peers are open'
         for e in st['clog']:
             if e[0] == 'recv' and e[1] == 'data':
                 recv_c += e[2]
@@ -540,43 +559,164 @@ def gen_ticks(rng, n, pfail, cdata, udata, raw_p=0.15, client_data=True):
     return out
 
 
+CONN_HEADERS = [None, b'Connection: close', b'connection: Close', b'CONNECTION: CLOSE', b'Connection: keep-alive',
+                b'connection: Keep-Alive']
+FRAMINGS = ['cl', 'cl0', 'chunked', 'close', 'nobody']
+
+
+def one_response(rng, framing=None, conn=0, body=None):
+    """One well-formed HTTP/1.x response as (bytes, structural boundaries): offsets after the status
+    line, after every header line, after the blank line, after every chunk-size line / chunk data /
+    the last chunk / every trailer line, and the end of the message."""
+    framing = framing or rng.choice(FRAMINGS)
+    if conn == 0:
+        conn = rng.choice(CONN_HEADERS)
+    out = bytearray()
+    bounds = []
+
+    def put(x, mark=True):
+        out.extend(x)
+        if mark:
+            bounds.append(len(out))
+    ver = b'HTTP/1.0' if framing == 'close' and rng.random() < 0.5 else b'HTTP/1.1'
+    if framing == 'nobody':
+        put(ver + rng.choice([b' 204 No Content', b' 304 Not Modified', b' 204']) + b'\r\n')
+    else:
+        put(ver + rng.choice([b' 200 OK', b' 200 OK', b' 404 Not Found', b' 200']) + b'\r\n')
+    hdrs = [b'Server: x', b'Content-Type: application/octet-stream'][:rng.randint(0, 2)]
+    if conn is not None:
+        hdrs.insert(rng.randint(0, len(hdrs)), conn)
+    if body is None:
+        body = rnd_bytes(rng, rng.choice([0, 1, 5, 40, 300]))
+    if framing == 'cl':
+        hdrs.append(b'Content-Length: %d' % len(body))
+    elif framing == 'cl0':
+        hdrs.append(b'content-length: 0')
+        body = b''
+    elif framing == 'chunked':
+        hdrs.append(rng.choice([b'Transfer-Encoding: chunked', b'transfer-encoding: Chunked']))
+    for h_ in hdrs:
+        put(h_ + b'\r\n')
+    put(b'\r\n')
+    if framing == 'cl':
+        if body:
+            put(body)
+    elif framing == 'chunked':
+        rest = body
+        while rest:
+            n = rng.randint(1, max(1, min(40, len(rest))))
+            put(b'%x' % n + rng.choice([b'', b'', b';ext=1', b';a;b="q"']) + b'\r\n')
+            put(rest[:n], mark=True)
+            put(b'\r\n')
+            rest = rest[n:]
+        put(b'0' + rng.choice([b'', b';last']) + b'\r\n')
+        if rng.random() < 0.4:
+            put(b'X-Trailer: v\r\n')
+            put(b'Y: z\r\n')
+        put(b'\r\n')
+    elif framing == 'close':
+        # close-delimited: the body runs until the upstream closes
+        if body:
+            k = rng.randint(0, len(body))
+            if 0 < k < len(body):
+                put(body[:k])
+                put(body[k:])
+            else:
+                put(body)
+    return bytes(out), bounds
+
+
+def structured_stream(rng, framing=None, conn=0):
+    """A stream of well-formed responses (optional 1xx interim responses, optional pipelining;
+    a close-delimited response can only be the last one) with all structural boundaries."""
+    data = bytearray()
+    bounds = []
+
+    def add(x, bs):
+        base = len(data)
+        data.extend(x)
+        bounds.extend(base + b_ for b_ in bs)
+    n = rng.choice([1, 1, 1, 2, 3])
+    for i in range(n):
+        if rng.random() < 0.2:
+            x = rng.choice([b'HTTP/1.1 100 Continue\r\n\r\n', b'HTTP/1.1 103 Early Hints\r\nLink: </s>\r\n\r\n'])
+            first = x.index(b'\r\n') + 2
+            add(x, sorted({first, len(x) - 2, len(x)}))
+        last = i == n - 1
+        f = framing if (framing and last) else rng.choice(FRAMINGS if last else [f_ for f_ in FRAMINGS if f_ != 'close'])
+        x, bs = one_response(rng, f, conn if last else 0)
+        add(x, bs)
+    bs = sorted({b_ for b_ in bounds if 0 < b_ < len(data)})
+    return bytes(data), bs
+
+
 def response_stream(rng):
-    """A byte stream of well-formed HTTP/1.x responses in assorted framings."""
-    def body(n):
-        return rnd_bytes(rng, n)
+    return structured_stream(rng)[0]
 
-    def cl():
-        b_ = body(rng.choice([0, 1, 5, 40, 300]))
-        return b'HTTP/1.1 200 OK\r\nContent-Type: application/octet-stream\r\nContent-Length: %d\r\n\r\n' % len(b_) + b_
 
-    def chunked():
-        out = b'HTTP/1.1 200 OK\r\nTransfer-Encoding: chunked\r\n\r\n'
-        for _ in range(rng.randint(0, 4)):
-            c = body(rng.randint(1, 40))
-            ext = rng.choice([b'', b';ext=1', b';a;b="q"'])
-            out += b'%x' % len(c) + ext + b'\r\n' + c + b'\r\n'
-        out += b'0' + rng.choice([b'', b';last']) + b'\r\n'
-        if rng.random() < 0.5:
-            out += b'X-Trailer: v\r\nY: z\r\n'
-        return out + b'\r\n'
+def cut_at(data, cuts):
+    out, last = [], 0
+    for c in sorted(set(cuts)) + [len(data)]:
+        if c > last:
+            out.append(data[last:c])
+            last = c
+    return out
 
-    def interim():
-        return rng.choice([b'HTTP/1.1 100 Continue\r\n\r\n', b'HTTP/1.1 103 Early Hints\r\nLink: </s>\r\n\r\n'])
 
-    def close_delim():
-        return b'HTTP/1.0 200 OK\r\nServer: x\r\n\r\n' + body(rng.choice([0, 7, 200]))
+def struct_cut(rng, data, bounds):
+    """segments of `data`: at every structural boundary / at one boundary / boundaries plus random
+    positions / random positions / every byte of the head"""
+    if len(data) < 2:
+        return [data] if data else []
+    mode = rng.choice(['all', 'all', 'one', 'one', 'mixed', 'random', 'bytes'])
+    rnd = lambda k: rng.sample(range(1, len(data)), min(k, len(data) - 1))     # noqa: E731
+    if mode == 'all' or not bounds:
+        cuts = list(bounds) if bounds else rnd(2)
+    elif mode == 'one':
+        cuts = [rng.choice(bounds)]
+    elif mode == 'mixed':
+        cuts = rng.sample(bounds, rng.randint(1, len(bounds))) + rnd(rng.randint(0, 3))
+    elif mode == 'random':
+        cuts = rnd(rng.choice([1, 2, 4, 8]))
+    else:
+        cuts = list(range(1, min(len(data), 48))) + [b_ for b_ in bounds]
+    return cut_at(data, cuts)
 
-    def no_reason():
-        return b'HTTP/1.1 204\r\n\r\n'
-    parts = []
-    for _ in range(rng.randint(1, 3)):
-        k = rng.random()
-        if k < 0.2:
-            parts.append(interim())
-        parts.append(rng.choice([cl, chunked, cl, chunked, no_reason])())
-    if rng.random() < 0.3:
-        parts.append(close_delim())
-    return b''.join(parts)
+
+def stream_schedule(rng, segs, tail=None, eof=True, slow=None):
+    """deliver the upstream segments one per tick with client flushes in between (pace `slow`),
+    then optional extra upstream bytes, the upstream close, and the final flush"""
+    slow = rng.choice([0.0, 0.3, 0.7]) if slow is None else slow
+    ticks = []
+    big = ['s', 10 ** 6]
+    for sg in segs + ([tail] if tail else []):
+        ticks.append(['m' + rng.choice('01') + '1' + '1' + rng.choice('01'), 'w',
+                      rng.choice([big, big, ['s', 3], 'b']), ['d', {'hex': sg.hex()}], rng.choice([big, 'b'])])
+        while rng.random() < slow:
+            ticks.append(['m0100', 'b', rng.choice([big, ['s', 1], ['s', 7], 'b']), 'b', 'b'])
+    if eof:
+        ticks.append(['m0110', 'b', big, 'e', 'b'])
+        for _ in range(3):
+            ticks.append(['m0100', 'b', big, 'b', 'b'])
+    return ticks
+
+
+def structural_systematic(rng, per_shape=1):
+    """every framing x Connection header variant, cut at EACH single structural boundary and at
+    all of them, followed by more upstream bytes where the framing allows (close-delimited)"""
+    for framing in FRAMINGS:
+        for conn in CONN_HEADERS:
+            for _ in range(per_shape):
+                data, bounds = structured_stream(random_fork(rng), framing, conn)
+                tail = rnd_bytes(rng, rng.randint(1, 30)) if framing == 'close' else None
+                for cuts in [[b_] for b_ in bounds] + [bounds]:
+                    yield relay_case('http', stream_schedule(rng, cut_at(data, cuts), tail, slow=0.0),
+                                     rng.choice([None, None, 5]))
+
+
+def random_fork(rng):
+    import random as _r
+    return _r.Random(rng.getrandbits(64))
 
 
 def cut(rng, data, pieces=None):
@@ -667,8 +807,13 @@ def gen_relay_case(rng, setup, big=False):
     pfail = rng.choice([0.0, 0.0, 0.03, 0.12])
     n = rng.randint(3, 30)
     if setup == 'http':
-        stream = response_stream(rng)
-        segs = cut(rng, stream)
+        stream, bounds = structured_stream(rng)
+        if rng.random() < 0.5:
+            # delivered in order, one segment per tick, with the stream continuing / closing afterwards
+            segs = struct_cut(rng, stream, bounds)
+            tail = rnd_bytes(rng, rng.randint(1, 20)) if rng.random() < 0.3 else None
+            return relay_case('http', stream_schedule(rng, segs, tail, eof=rng.random() < 0.7), mx)
+        segs = struct_cut(rng, stream, bounds)
         segs.reverse()
 
         def udata():
@@ -717,6 +862,8 @@ def generate(rng, tier):
         yield c
     for c in systematic(2, setup='http', mx=None):
         yield c
+    for c in structural_systematic(rng, 1 if not big else 6):
+        yield c
     if big:
         for c in systematic(4, mx=1):
             yield c
@@ -743,7 +890,7 @@ def neighbours(case):
 def search(rng):
     out = list(systematic(3))
     out += [gen_relay_case(rng, 'tunnel') for _ in range(1500)]
-    out += [gen_relay_case(rng, 'http') for _ in range(800)]
+    out += [gen_relay_case(rng, 'http') for _ in range(800)] + list(structural_systematic(rng, 1))
     out += [gen_flush_case(rng, False) for _ in range(1500)] + [gen_flush_case(rng, True) for _ in range(10)]
     return out
 
